@@ -269,13 +269,16 @@ structure Cfg where
   both deployed and replaced by one diff the history holds the deployed class and the head the
   replaced one). -/
   histOrderFix : Bool
+  /-- blockchain/statebackend `storeCasmHashMetadata` stores the compiled class hash a migration
+  carries (as found: `Migrate` only sets the height and keeps the hash juno precomputed). -/
+  migValFix : Bool := false
   deriving DecidableEq, Repr
 
-def Cfg.asFound : Cfg := ⟨false, false, false⟩
-def Cfg.repaired : Cfg := ⟨true, true, true⟩
+def Cfg.asFound : Cfg := ⟨false, false, false, false⟩
+def Cfg.repaired : Cfg := ⟨true, true, true, true⟩
 /-- the tree: b4efaf4 (`leafFix`) and 904a370 (`histOrderFix`) are applied, the system-contract probe
-change is only proposed -/
-def Cfg.current : Cfg := ⟨true, false, true⟩
+change and the migration change are only proposed -/
+def Cfg.current : Cfg := ⟨true, false, true, false⟩
 
 inductive Err
   | alreadyDeployed | notFound | notDeployed | classMissing | checkHeadState
@@ -714,6 +717,23 @@ def metaStore (m : MetaMap) (b : Nat) (d : Diff) : Except Err MetaMap :=
   else
     .ok (d.declared1.foldl (fun m x => bset m x.hash (some ⟨b, x.casmV2, 0, some x.casm⟩)) m)
 
+/-- `storeCasmHashMetadata` with proposed-fixes/C03-casm-migration-stores-the-hash-of-the-diff.diff:
+a migration also replaces the precomputed blake2s hash by the hash the diff carries -/
+def metaStoreFixed (m : MetaMap) (b : Nat) (d : Diff) : Except Err MetaMap :=
+  if d.v2 then
+    let m1 := d.declared1.foldl (fun m x => bset m x.hash (some ⟨b, x.casm, 0, none⟩)) m
+    d.migrated.foldlM (fun m p =>
+      match bget m p.1 with
+      | none => .error .metaMissing
+      | some mt =>
+        if mt.v1.isNone || b ≤ mt.declaredAt || mt.migratedAt > 0 then .error .cannotMigrate
+        else .ok (bset m p.1 (some { mt with migratedAt := b, v2 := p.2 }))) m1
+  else
+    .ok (d.declared1.foldl (fun m x => bset m x.hash (some ⟨b, x.casmV2, 0, some x.casm⟩)) m)
+
+def metaStoreOf (fix : Bool) (m : MetaMap) (b : Nat) (d : Diff) : Except Err MetaMap :=
+  if fix then metaStoreFixed m b d else metaStore m b d
+
 /-- the metadata reads made inside `State.Revert` (both backends) before anything is written -/
 def metaRevertCheck (m : MetaMap) (d : Diff) : Bool :=
   d.migrated.all (fun p => match bget m p.1 with | some mt => mt.migratedAt > 0 | none => false)
@@ -751,12 +771,19 @@ structure Backend (σ : Type) where
   /-- `StateAtBlockHash` reads the header of the number the hash resolves to (new backend: it needs
   the state root; the legacy backend opens the history reader on the number alone) -/
   hashViewNeedsHeader : Bool
+  /-- block store variant (not the state's): a CASM migration stores the hash of the diff
+  (`Cfg.migValFix`, proposed only) -/
+  migFix : Bool
 
 def newBackend (cfg : Cfg) : Backend NState :=
-  ⟨NState.empty, NState.update cfg, NState.revert cfg, NState.headRead, NState.histRead cfg, true⟩
+  ⟨NState.empty, NState.update cfg, NState.revert cfg, NState.headRead, NState.histRead cfg, true, cfg.migValFix⟩
 
-def legacyBackend : Backend LState :=
-  ⟨LState.empty, LState.update, LState.revert, LState.headRead, LState.histRead, false⟩
+/-- the legacy backend under a block store with / without the proposed migration change -/
+def legacyBackendOf (migFix : Bool) : Backend LState :=
+  ⟨LState.empty, LState.update, LState.revert, LState.headRead, LState.histRead, false, migFix⟩
+
+/-- the legacy backend of the tree -/
+def legacyBackend : Backend LState := legacyBackendOf false
 
 structure Node (σ : Type) where
   st : σ
@@ -776,7 +803,7 @@ def Node.store {σ : Type} (be : Backend σ) (n : Node σ) (id : BlockId) (d : D
   match be.update n.st n.blocks.length d with
   | .error e => .error e
   | .ok st =>
-    match metaStore n.casmMeta n.blocks.length d with
+    match metaStoreOf be.migFix n.casmMeta n.blocks.length d with
     | .error e => .error e
     | .ok m => .ok ⟨st, (id, d) :: n.blocks, m, bset n.hashIdx id (some n.blocks.length)⟩
 
